@@ -4,12 +4,14 @@ always restore the file. Prints the check's verdict lines. For developing/valida
 import subprocess, sys, os
 pid, rel, old, new = sys.argv[1:5]
 p = os.path.join("/repo", rel)
+import fcntl
+_lk = open("/tmp/verif_repo.lock", "w"); fcntl.flock(_lk, fcntl.LOCK_EX)
 src = open(p).read()
 if src.count(old) != 1:
     sys.exit(f"pattern occurs {src.count(old)} times")
 open(p, "w").write(src.replace(old, new))
 try:
-    r = subprocess.run(["./check", pid], cwd="/verif", capture_output=True, text=True)
+    r = subprocess.run(["./check", pid], cwd="/verif", capture_output=True, text=True, env=dict(os.environ, VERIF_LOCK_HELD="1"))
     print("\n".join(l[:260] for l in r.stdout.splitlines()[:8]))
     print("rc =", r.returncode)
 finally:
